@@ -332,8 +332,9 @@ def run_case(case, ctx):
         with AspireFile(p, "r") as h:
             r = type(flow).load(h, "flow")
         lp2 = env.to_np(r.log_prob(x)).astype(np.float64)
-        # a float32 flow may hold its fitted constants wider than it stores them: the reload is exact to the declared width only
-        if (ok & (np.abs(lp2 - lp) > (1e-6 if w64 else 2e-5) * (1 + np.abs(lp)))).any():
+        # a float32 flow may hold its fitted constants (bounds, mean, scale) wider than it stores them: the reload is exact to the
+        # declared width only, and next to a bound the bounded maps amplify that rounding by 1/distance (same allowance as (b))
+        if (ok & (np.abs(lp2 - lp) > (1e-6 if w64 else tol) * (1 + np.abs(lp)))).any():
             j = int(np.argmax(np.abs(lp2 - lp) * ok))
             ctx.fail("reload-changes-density", f"log_prob after save/load is {lp2[j]:.8g}, before {lp[j]:.8g}", case)
         total2 = _integral(case, r, data, span)
